@@ -233,6 +233,8 @@ class CounterToken(Token, FileSystemEventHandler):
             # Get the maximum number of tokens
             if force or not self.infopath.is_file():
                 self.total = count
+                if _verif.ACTIVE:
+                    _verif.emit("tok.info.write", total=count)
                 self.infopath.write_text(str(count))
 
             self.timestamp = os.path.getmtime(self.path)
